@@ -219,6 +219,22 @@ def main(argv):
             continue
         if not r.obligations:
             errors.append("%s: generated zero obligations" % r.target)
+        if getattr(r, "tentative", None) and any(ob["status"] != "proved" for ob in r.obligations):
+            # a loop header no longer reads as the contract recorded it and the contract's invariants do not carry the proof on
+            # the loop as it is now: the function is outside the subset for this run (bounded layer decides), EXCEPT for
+            # refutations that replay natively against the real code - those are violations whatever the loop looks like
+            for ob in r.obligations:
+                if ob["status"] == "refuted" and not ob.get("inductive") and ob.get("inputs") is not None:
+                    path, native = native_replay(prop, spec_of.get(r.target, modnames[0] if modnames else ""), ob, r.target)
+                    if native.get("reproduced"):
+                        k = matches_known(known, prop, ob["name"], ob.get("inputs"), native)
+                        if k:
+                            known_hits.append(k)
+                        else:
+                            violations.append((ob["name"], path, ""))
+            demoted.append({"function": r.target, "reason": r.tentative + " (the contract's invariants were tried on the loop as it is now and do not carry the proof)"})
+            functions[-1]["status"] = "error: subset"
+            continue
         for ob in r.obligations:
             n_obl += 1
             by_kind[ob["kind"]] = by_kind.get(ob["kind"], 0) + 1
